@@ -40,11 +40,25 @@ pub fn record(id: usize, prop: &str, text: &str, row_lines: Option<Vec<usize>>, 
     let parsed = guarded(|| ParsedTestCase::from_str(text));
     let mut err_spans: Vec<J> = vec![];
     let mut err_kind = String::new();
+    let mut run_panic = String::new();
     let (res, dump, spans_ok, render_ok, msg) = match parsed {
         Err(p) => ("panic", empty_dump(), true, true, p),
         Ok(Ok(p)) => {
             let d: J = serde_json::from_str(&p.verif_dump()).expect("dump is JSON");
-            ("ok", dump_to_spec(&d), true, true, String::new())
+            let ds = dump_to_spec(&d);
+            // C10: whatever text the parser ACCEPTED (rightly or not) is bound to a signal list made to fit it and run
+            // (in a thread of its own that is abandoned after a few seconds: a program that spins is not judged at all)
+            run_panic = {
+                let (tx, rx) = std::sync::mpsc::channel();
+                let (t, d) = (text.to_string(), ds.clone());
+                std::thread::spawn(move || {
+                    crate::run::QUIET_THREAD.with(|q| q.set(true));
+                    let _ = tx.send(run_accepted(&t, &d));
+                });
+                rx.recv_timeout(std::time::Duration::from_secs(5)).unwrap_or_default()
+            };
+            let _ = &p;
+            ("ok", ds, true, true, String::new())
         }
         Ok(Err(e)) => {
             // C09: every location lies within the source on character boundaries, and the error renders
@@ -69,8 +83,120 @@ pub fn record(id: usize, prop: &str, text: &str, row_lines: Option<Vec<usize>>, 
     json!({
         "ev": "parse", "id": id, "prop": prop, "cs": cs, "lexed": lexed, "tokens": tokens, "res": res, "dump": dump,
         "reparse_ok": true, "has_ref": false, "ref_stmts": [], "err_spans": err_spans, "err_kind": err_kind, "spans_ok": spans_ok, "render_ok": render_ok, "has_truth": row_lines.is_some(), "row_lines": row_lines.unwrap_or_default(),
-        "group": group, "note": note, "msg": msg, "text": text,
+        "group": group, "note": note, "msg": msg, "text": text, "run_panic": run_panic,
     })
+}
+
+/// a driver that answers every call with small numbers for all its outputs (sometimes Z)
+struct ConstDrv {
+    table: Vec<digital_test_runner::Signal>,
+    n: i64,
+}
+impl digital_test_runner::TestDriver for ConstDrv {
+    type Error = crate::driver::DrvErr;
+    fn write_input_and_read_output(&mut self, _inputs: &[digital_test_runner::InputEntry<'_>]) -> Result<Vec<digital_test_runner::OutputEntry<'_>>, Self::Error> {
+        self.n += 1;
+        let n = self.n;
+        Ok(self
+            .table
+            .iter()
+            .enumerate()
+            .map(|(k, s)| digital_test_runner::OutputEntry { signal: s, value: if (n + k as i64) % 11 == 10 { digital_test_runner::OutputValue::Z } else { digital_test_runner::OutputValue::Value((n + 3 * k as i64) % 5) } })
+            .collect())
+    }
+}
+
+/// Bind an accepted text to a signal list built from the parser's own facts (what it reads must be an output, a clocked
+/// column an input, the other columns alternate) and iterate it, every call guarded; returns the panic message, or "".
+fn run_accepted(text: &str, dump: &J) -> String {
+    use digital_test_runner::Signal;
+    // not `guarded`: the hang watchdog must not count these calls
+    fn quiet<T>(f: impl FnOnce() -> T) -> Result<T, String> {
+        std::panic::catch_unwind(std::panic::AssertUnwindSafe(f)).map_err(|_| crate::run::take_panic())
+    }
+    let p = match quiet(|| ParsedTestCase::from_str(text)) {
+        Ok(Ok(p)) => p,
+        _ => return String::new(),
+    };
+    // every next() must return: only programs that cannot spin are run (no `while`, nesting at most two deep, literals up to
+    // 1000 and neither `*` nor `<<`, so that no loop bound can become large) - the properties quantify over terminating programs
+    fn bounded(j: &J, depth: usize) -> bool {
+        match j {
+            J::Array(a) => a.iter().all(|x| bounded(x, depth)),
+            J::Object(o) => {
+                let k = o.get("k").and_then(|k| k.as_str()).unwrap_or("");
+                if k == "while" || (k == "loop" && depth >= 2) {
+                    return false;
+                }
+                if k == "num" {
+                    let w = o["v"].as_array().cloned().unwrap_or_default();
+                    if w.len() != 4 || w[..3].iter().any(|l| l.as_u64() != Some(0)) || w[3].as_u64().unwrap_or(u64::MAX) > 1000 {
+                        return false;
+                    }
+                }
+                if matches!(o.get("op").and_then(|x| x.as_str()), Some("*") | Some("<<")) {
+                    return false;
+                }
+                let d = if k == "loop" { depth + 1 } else { depth };
+                o.values().all(|x| bounded(x, d))
+            }
+            _ => true,
+        }
+    }
+    if !bounded(&dump["stmts"], 0) {
+        return String::new();
+    }
+    let names = |k: &str| -> Vec<String> { dump[k].as_array().map(|a| a.iter().filter_map(|v| v.as_str().map(|s| s.to_string())).collect()).unwrap_or_default() };
+    let header = names("signals");
+    let reads = names("read_outputs");
+    let clocked = names("expected_inputs");
+    let virtuals: Vec<String> = dump["virtuals"].as_array().map(|a| a.iter().filter_map(|v| v["name"].as_str().map(|s| s.to_string())).collect()).unwrap_or_default();
+    let mut signals: Vec<Signal> = vec![];
+    let mut seen: Vec<String> = vec![];
+    for n in &reads {
+        if !seen.contains(n) && !virtuals.contains(n) {
+            seen.push(n.clone());
+            signals.push(Signal::output(n.clone(), 8));
+        }
+    }
+    for (k, n) in header.iter().enumerate() {
+        if seen.contains(n) || virtuals.contains(n) {
+            continue;
+        }
+        seen.push(n.clone());
+        if clocked.contains(n) || k % 2 == 0 {
+            signals.push(Signal::input(n.clone(), if clocked.contains(n) { 1 } else { 4 }, 0));
+        } else {
+            signals.push(Signal::output(n.clone(), 4));
+        }
+    }
+    let table: Vec<Signal> = signals.iter().filter(|s| s.is_output()).cloned().collect();
+    let tc = match quiet(move || p.with_signals(signals)) {
+        Err(m) => return format!("with_signals: {m}"),
+        Ok(Err(_)) => return String::new(),
+        Ok(Ok(tc)) => tc,
+    };
+    let mut drv = ConstDrv { table, n: 0 };
+    let mut it = match quiet(|| tc.try_iter(&mut drv)) {
+        Err(m) => return format!("try_iter: {m}"),
+        Ok(Err(_)) => return String::new(),
+        Ok(Ok(it)) => it,
+    };
+    let mut errs = 0;
+    for _ in 0..40 {
+        match quiet(|| it.next()) {
+            Err(m) => return format!("next: {m}"),
+            Ok(None) => break,
+            Ok(Some(Err(_))) => {
+                errs += 1;
+                if errs >= 3 {
+                    break;
+                }
+            }
+            Ok(Some(Ok(_))) => {}
+        }
+    }
+    String::new()
 }
 
 fn row_lines_of(prog: &[Stmt], printed: &Printed, out: &mut Vec<usize>) {
@@ -141,6 +267,30 @@ pub fn parsegen(prop: &str, seed: u64, runs: usize) -> Vec<J> {
                 "A\n(é)\n", "A\n1 é\n", "A\n\u{1F600}\n", "A\n(a\u{0663})\n", "A\n0 C C C\n", "A\nC\nC C\n", "A\nbits(99999999999999999999,1)\n", "A B\nbits(2,3) C\n", "A B C\nbits(3,1) C C\n", "A B\n1 bits(2,1) C\n", "A\nbits(0,1) 1 C\n", "A B\nbits(257,5) 1\n", "A\nbits(256,5) 1\n", "A\n(99999999999999999999)\n", "A\n#\n", "#A\n1\n",
             ] {
                 push(&mut out, prop, t, None, 0, "fixed");
+            }
+            // every error site of the parser (one short line each, plus some valid lines), at top level and inside a block,
+            // followed by every kind of line end: nothing, blanks, a comment (also one ending in a multi-byte character), CRLF,
+            // a line break, more lines - the location of an error must not depend on what comes after the place it points to
+            const LINES: &[&str] = &[
+                "1", "1 1", "1 1 1", "", "repeat(2)", "repeat(2) 1", "repeat(2) 1 1", "repeat(2) 1 1 1", "repeat(", "repeat(2", "repeat()", "repeat 2", "bits(2,1)", "bits(2,1) 1", "bits(2,", "bits(2",
+                "bits(65,1)", "bits(1)", "bits(1,1) bits(1,", "C C", "C C C", "0 C", "(1", "(1 +", "(1 + )", "1 (", "1 (1", "1 (1))", "x", "x y", "X Z", "let", "let a", "let a =", "let a = ;", "let a = 1", "let a = 1;",
+                "let a = 1; 1", "let 1 = 1;", "let a 1;", "declare", "declare a", "declare a = 1", "declare a = 1;", "declare a = 1; 2", "resetRandom", "resetRandom;", "resetRandom; 1", "loop", "loop(", "loop(i",
+                "loop(i,", "loop(i,1", "loop(i,1)", "loop(i,1) 1", "loop(1,1)", "while", "while(", "while(1", "while(1)", "while(1) 1", "end", "end loop", "end while", "end foo", "end loop 1", "(ite(1,2)) 1",
+                "(foo(1)) 1", "(random()) 1", "(random(1,2)) 1", "(1 ! 2) 1", "(~) 1", "(-) 1", "(1 +* 2) 1", "program", "program x", "init", "0x 1", "0b2 1", "08 1", "99999999999999999999 1", "$ 1", "1 $", "é 1", "1 é",
+            ];
+            const ENDS: &[&str] = &["", " ", "   ", "\t# c", " # é", "#日本", "\r\n", "\n", " \n", "\n\n", " # c\n", "\r"];
+            for (i, l) in LINES.iter().enumerate() {
+                for (j, e) in ENDS.iter().enumerate() {
+                    for open in ["", "loop(i,2)\n", "while(a)\n1 1\n"] {
+                        let tail = match (i + j) % 3 {
+                            0 => "",
+                            1 => "\n1 1\n",
+                            _ => "\nend loop\n",
+                        };
+                        let t = format!("A B\n{open}{l}{e}{tail}");
+                        push(&mut out, prop, &t, None, 0, "error sites x line ends");
+                    }
+                }
             }
             for run in 0..runs {
                 let s: u64 = top.gen();
